@@ -222,6 +222,8 @@ class Repo:
     def module_by_dotted(self, dotted):
         if not dotted.startswith('yowsup'):
             return None
+        if dotted.endswith('_pb2'):
+            return None         # generated protobuf code: an external library as far as the proofs go (pyvc/protomodel.py)
         p = dotted.replace('.', '/')
         for cand in (p + '.py', p + '/__init__.py'):
             if os.path.isfile(os.path.join(self.root, cand)):
